@@ -24,13 +24,16 @@ def menu(nm):
 
 
 def mk(name, sessions_spec, nm=1, index=False, extra=False, small_chunks=False, shock=False, vol=False, programs=None,
-       choice_steps=None):
+       choice_steps=None, two_indices=False):
     markets = []
     for i in range(nm):
         d = dict(name="M%d" % i, shares=i + 1, drift=(2.0 ** -7 if i == 1 else 0.0))
         markets.append(d)
     if index:
         markets.append(dict(name="IDX", cls="ProbeIndexMarket", components=["M%d" % i for i in range(min(nm, 2))]))
+    if two_indices:
+        # a second index market sharing a component with the first
+        markets.append(dict(name="IDX2", cls="ProbeIndexMarket", components=["M1", "M2"]))
     if extra:
         markets.append(dict(name="X", shares=3))
     mn = menu(nm)
@@ -82,6 +85,8 @@ def scenarios(tier):
         sc[n] = mk(n, sl_, nm=2, index=True, extra=True, shock=True)
     sc["one_market"] = mk("one_market", [(2, True, False), (3, True, True)], nm=1)
     sc["three_markets_vol"] = mk("three_markets_vol", [(2, True, True), (3, True, True)], nm=3, index=True, shock=True, vol=True)
+    sc["two_indices_sharing_a_component"] = mk("two_indices_sharing_a_component", [(2, True, False), (3, True, True)], nm=3, index=True,
+                                                 two_indices=True, shock=True)
     sc["chunk3:a"] = mk("chunk3:a", [(4, True, True), (4, True, False), (4, True, True)], nm=2, index=True, extra=True, small_chunks=True,
                         shock=True, vol=True, programs=([1, 3, 1, 5, 0, 1], [2, 4, 2, 2, 0, 2]))
     sc["chunk3:b"] = mk("chunk3:b", [(7, True, True)], nm=1, small_chunks=True, programs=([1, 0, 3, 1], [2, 0, 0, 4]))
